@@ -122,7 +122,8 @@ func LedgerEvents(t int, sc *Scenario, tr *Transcript) []LedgerEvent {
 	eoaOf := func(h []HoldEntry, prev []HoldEntry) []string {
 		set := map[string]bool{}
 		for _, e := range append(append([]HoldEntry{}, h...), prev...) {
-			if !isPool(e.O) {
+			// contract addresses are not externally owned: their code, not a signature, decides what leaves them
+			if !isPool(e.O) && !strings.HasPrefix(e.O, "c:") {
 				set[e.O] = true
 			}
 		}
